@@ -1,29 +1,44 @@
 ------------------------------- MODULE FzfScreen -------------------------------
 (* What the finder draws, as a function of its state: Render(s, g, c) = the rows of the terminal, top to bottom, *)
-(* for the comparable configuration  --no-color --no-unicode --no-hscroll --no-scrollbar, no borders / margin /   *)
-(* preview, single-line items, full screen in a g.w x g.h terminal  (src/terminal.go printPrompt, printInfoImpl,  *)
-(* printHeaderImpl, printList, printItem, printHighlighted, move, promptLine, maxItems, resizeWindows).            *)
+(* for the comparable configuration  --no-color --no-unicode, no margin / padding / preview, single-line items,   *)
+(* full screen in a g.w x g.h terminal, optionally inside --border (src/terminal.go printPrompt, printInfoImpl,    *)
+(* printHeaderImpl, printList, printItem, printHighlighted, printBar, move, promptLine, maxItems, resizeWindows).  *)
 (*                                                                                                                 *)
 (* A text is a sequence of CELLS; a cell is a string holding one character.  Rows are texts without trailing      *)
-(* blanks (a terminal cannot tell a blank from nothing).                                                          *)
+(* blanks (a terminal cannot tell a blank from nothing); inside a border rows are framed and keep their width.    *)
 (*   g = [w, h, wide, zero]      terminal size; the sets of cells that are two columns wide / zero columns wide   *)
-(*   c = [layout, info, sep, header, hlines, headerFirst, inputless, prompt, pointer, marker, ellipsis]           *)
+(*   c = [layout, info, sep, header, hlines, headerFirst, inputless, prompt, pointer, marker, ellipsis,           *)
+(*        hscroll, hscrollOff, keepRight, scrollbar, border]                                                       *)
 (*        layout in {"default","reverse","reverse-list"}; info in {"default","inline","hidden","right",           *)
 (*        "inline-right"}; sep: a separator is drawn (FALSE = --no-separator); header: the lines of --header;     *)
 (*        hlines: the --header-lines=N rows: the first N input records (CODE-DERIVED: N rows stay reserved, blank, *)
-(*        when the input has fewer records); prompt/pointer/marker/ellipsis: texts                                 *)
-(*   s = [input, cx, xoffset, list, texts, sel, multi, cy, offset, count, track]                                   *)
+(*        when the input has fewer records); prompt/pointer/marker/ellipsis: texts; inputless: --no-input given;  *)
+(*        hscroll (FALSE = --no-hscroll), hscrollOff (--hscroll-off, default 10), keepRight (--keep-right);       *)
+(*        scrollbar: the scrollbar character as a text (<<>> = --no-scrollbar); border: --border (a box)          *)
+(*   s = [input, cx, xoffset, list, texts, sel, multi, cy, offset, count, track, showHeader, hideInput, pattern]  *)
 (*        list: result ids in rank order, texts[i] the line of list[i]; sel: selected ids; multi: limit (0 = off) *)
 (*        cy: index of the current result; offset: index of the first displayed result; count: items loaded       *)
 (*        track: 0 off, 1 --track, 2 tracking the current line (actions toggle-track / track-current)              *)
 (*        xoffset: number of leading query characters scrolled out of the prompt line (0 unless a query was too long) *)
+(*        showHeader / hideInput: the header section (--header and --header-lines) is shown / the input section   *)
+(*        (prompt and info line) is hidden; they start as TRUE / c.inputless and are changed by the actions       *)
+(*        toggle-header, show-header, hide-header, toggle-input, show-input, hide-input (VisStep).  The layout is *)
+(*        a function of the CURRENT flags: Eff(s, c) is the configuration in effect, and every operator below     *)
+(*        that takes a configuration is applied to it - so a row that changed its role shows exactly the content  *)
+(*        of its new role and nothing of the old one, whatever the history was.                                    *)
+(*        pattern: the search pattern the displayed result list was computed with (<<>> = none: empty query or    *)
+(*        search disabled); it decides which part of a line that is too long is displayed (Window).               *)
 (*                                                                                                                 *)
 (* Two layers are kept apart:                                                                                      *)
-(*   DOCUMENTED  - placement (--layout, --header, --header-lines, --header-first, --info), what a row says        *)
-(*                 (query; matched/total/selected counts; result line complete or truncated with the ellipsis;    *)
-(*                 pointer / marker columns), the width bound: operators Place, Claims*.                           *)
+(*   DOCUMENTED  - placement (--layout, --header, --header-lines, --header-first, --info, --border), what a row   *)
+(*                 says (query; matched/total/selected counts; result line complete, or a part of it with the     *)
+(*                 ellipsis wherever something was cut, never wider than the room for the text, with the right    *)
+(*                 end of the match and --hscroll-off columns after it visible / the right end of the line with   *)
+(*                 --keep-right and no pattern; pointer / marker columns; the scrollbar column): operators Place, *)
+(*                 Claims*.                                                                                        *)
 (*   CODE-DERIVED - the exact text of the info line, the column reserved at the right edge, how the ellipsis is   *)
-(*                 fitted, clipping when the window is too short: operator Render (regression oracle).            *)
+(*                 fitted, which part exactly is displayed (Window), where exactly the scrollbar sits, clipping   *)
+(*                 when the window is too short: operator Render (regression oracle).                             *)
 (* MC_Screen proves  Claims(Render(x), x)  on small constants, i.e. the two layers agree.                          *)
 EXTENDS Integers, Sequences, FiniteSets, TLC
 
@@ -42,7 +57,9 @@ Spaces(n) == Rep(" ", n)
 CW(cell, g) == IF cell \in g.wide THEN 2 ELSE IF cell \in g.zero THEN 0 ELSE 1
 RECURSIVE TWFrom(_, _, _)
 TWFrom(t, i, g) == IF i > Len(t) THEN 0 ELSE CW(t[i], g) + TWFrom(t, i + 1, g)
-TW(t, g) == TWFrom(t, 1, g)                                           \* display width of a text
+TWRec(t, g) == TWFrom(t, 1, g)                                        \* display width of a text: the sum of its cells' widths
+(* the same without recursion (lines of hundreds of cells; MC_Screen checks the two agree) *)
+TW(t, g) == Len(t) + Cardinality({i \in 1..Len(t) : t[i] \in g.wide}) - Cardinality({i \in 1..Len(t) : t[i] \in g.zero /\ t[i] \notin g.wide})
 
 (* util.RunesWidth / trimRight / util.Truncate: the longest prefix that is at most lim columns wide *)
 RECURSIVE CutAt(_, _, _, _, _)
@@ -66,6 +83,75 @@ Digits(n) == IF n < 10 THEN <<Digit(n)>> ELSE Digits(n \div 10) \o <<Digit(n % 1
 
 IsPrefix(p, t) == Len(p) <= Len(t) /\ Sub(t, 1, Len(p)) = p
 Contains(t, p) == \E i \in 0..(Len(t) - Len(p)) : Sub(t, i + 1, i + Len(p)) = p
+(* trimLeft: the longest suffix within lim columns = the mirror image of TakeW (MC_Screen checks the two agree) *)
+RECURSIVE CutBack(_, _, _, _, _)
+CutBack(t, i, acc, lim, g) == IF i < 1 THEN 1
+                              ELSE IF acc + CW(t[i], g) > lim THEN i + 1
+                              ELSE CutBack(t, i - 1, acc + CW(t[i], g), lim, g)
+TakeRightW(t, lim, g) == IF lim < 0 THEN <<>> ELSE Sub(t, CutBack(t, Len(t), 0, lim, g), Len(t))
+TakeRightWMirror(t, lim, g) == Rev(TakeW(Rev(t), lim, g))
+PadTo(t, n, g) == t \o Spaces(n - TW(t, g))                             \* t followed by blanks up to column n
+SetMax(S) == CHOOSE x \in S : \A y \in S : y <= x
+
+-------------------------------------------------------------------------------
+(* Sections that are shown / hidden during a session.                                                             *)
+(* DOCUMENTED (man fzf, AVAILABLE ACTIONS): toggle-header, show-header, hide-header, toggle-input, show-input,     *)
+(* hide-input.  The header section is --header and --header-lines together; the input section is the prompt and   *)
+(* the info / separator line.  A hidden section takes no rows: the list gets them.                                *)
+VisActs == {"toggle-header", "show-header", "hide-header", "toggle-input", "show-input", "hide-input"}
+VisStep(s, a) ==
+    CASE a = "toggle-header" -> [s EXCEPT !.showHeader = ~@]
+      [] a = "show-header" -> [s EXCEPT !.showHeader = TRUE]
+      [] a = "hide-header" -> [s EXCEPT !.showHeader = FALSE]
+      [] a = "toggle-input" -> [s EXCEPT !.hideInput = ~@]
+      [] a = "show-input" -> [s EXCEPT !.hideInput = FALSE]
+      [] a = "hide-input" -> [s EXCEPT !.hideInput = TRUE]
+      [] OTHER -> s
+RECURSIVE VisAfter(_, _, _)
+VisAfter(s, acts, i) == IF i > Len(acts) THEN s ELSE VisAfter(VisStep(s, acts[i]), acts, i + 1)
+VisInit(c) == [showHeader |-> TRUE, hideInput |-> c.inputless]
+(* the configuration in effect: a hidden header section has no lines, a hidden input section is --no-input *)
+Eff(s, c) == [c EXCEPT !.header = IF s.showHeader THEN @ ELSE <<>>,
+                       !.hlines = IF s.showHeader THEN @ ELSE <<>>,
+                       !.inputless = s.hideInput]
+(* --border: a box of one cell.  CODE-DERIVED: one blank column inside on the left; on the right the finder's area *)
+(* reaches the border ("put scrollbar closer to the right border"): its reserved column is the margin.             *)
+Inner(g, c) == IF c.border THEN [g EXCEPT !.w = g.w - 3, !.h = g.h - 2] ELSE g
+
+-------------------------------------------------------------------------------
+(* Where the search pattern matches a line.  Matching itself is FzfQuery's / FzfAlgo's subject; here only the     *)
+(* position of the last matched character is needed, and only where it does not depend on the algorithm:          *)
+(* the pattern consists of plain terms (letters and digits, separated by blanks), every character of a term       *)
+(* occurs exactly once in the line (smart case: a term with an upper-case letter is case-sensitive, DOCUMENTED),   *)
+(* in the order of the term - then every matcher must report exactly these positions.  Lines are restricted to    *)
+(* printable ASCII and wide (East Asian) cells so that no other character folds to a letter or digit.             *)
+UpperSeq == <<"A", "B", "C", "D", "E", "F", "G", "H", "I", "J", "K", "L", "M", "N", "O", "P", "Q", "R", "S", "T", "U", "V", "W", "X", "Y", "Z">>
+LowerSeq == <<"a", "b", "c", "d", "e", "f", "g", "h", "i", "j", "k", "l", "m", "n", "o", "p", "q", "r", "s", "t", "u", "v", "w", "x", "y", "z">>
+DigitSet == {"0", "1", "2", "3", "4", "5", "6", "7", "8", "9"}
+UpperSet == Range(UpperSeq)
+PlainCells == UpperSet \cup Range(LowerSeq) \cup DigitSet
+AsciiCells == PlainCells \cup {" ", "!", "\"", "#", "$", "%", "&", "'", "(", ")", "*", "+", ",", "-", ".", "/", ":", ";", "<", "=", ">",
+                               "?", "@", "[", "\\", "]", "^", "_", "`", "{", "|", "}", "~"}
+LowerOf(x) == IF x \in UpperSet THEN LowerSeq[CHOOSE i \in 1..26 : UpperSeq[i] = x] ELSE x
+RECURSIVE TermsFrom(_, _, _)
+TermsFrom(p, i, cur) ==
+    IF i > Len(p) THEN (IF cur = <<>> THEN <<>> ELSE <<cur>>)
+    ELSE IF p[i] = " " THEN (IF cur = <<>> THEN <<>> ELSE <<cur>>) \o TermsFrom(p, i + 1, <<>>)
+    ELSE TermsFrom(p, i + 1, Append(cur, p[i]))
+Terms(p) == TermsFrom(p, 1, <<>>)                                      \* the blank-separated terms of a pattern
+CaseSens(term) == \E i \in 1..Len(term) : term[i] \in UpperSet
+Hits(t, term, i) == IF CaseSens(term) THEN {j \in 1..Len(t) : t[j] = term[i]}
+                    ELSE {j \in 1..Len(t) : LowerOf(t[j]) = term[i]}
+TermDetermined(t, term) ==
+    /\ \A i \in 1..Len(term) : term[i] \in PlainCells /\ Cardinality(Hits(t, term, i)) = 1
+    /\ \A i \in 1..(Len(term) - 1) : SetMax(Hits(t, term, i)) < SetMax(Hits(t, term, i + 1))
+Determined(t, p, g) ==
+    /\ \A j \in 1..Len(t) : t[j] \in AsciiCells \/ t[j] \in g.wide
+    /\ \A k \in 1..Len(Terms(p)) : TermDetermined(t, Terms(p)[k])
+(* index of the last matched cell (0: no pattern); meaningful where Determined *)
+TermEnd(t, term) == LET H == Hits(t, term, Len(term)) IN IF H = {} THEN 0 ELSE SetMax(H)
+MatchEnd(t, p) == LET T == Terms(p) IN
+                  IF T = <<>> THEN 0 ELSE SetMax({TermEnd(t, T[k]) : k \in 1..Len(T)})
 
 -------------------------------------------------------------------------------
 (* Geometry of the regions *)
@@ -127,8 +213,8 @@ Place(g, c) == [r \in 1..g.h |-> SlotAt(r - 1, g, c)]
 
 -------------------------------------------------------------------------------
 (* Row contents *)
-(* CODE-DERIVED: one column at the right edge is reserved (scrollbar column, even with --no-scrollbar); a longer  *)
-(* text is cut so that the ellipsis (itself cut to half the room) still fits (printHighlighted, --no-hscroll).    *)
+(* CODE-DERIVED: one column at the right edge is reserved (the scrollbar column, even with --no-scrollbar); a      *)
+(* longer text is cut so that the ellipsis (itself cut to half the room) still fits.  Fit cuts on the right.      *)
 Fit(t, maxw, c, g) ==
     IF maxw <= 0 THEN <<>>
     ELSE IF TW(t, g) <= maxw THEN t
@@ -136,14 +222,55 @@ Fit(t, maxw, c, g) ==
          IN TakeW(t, maxw - TW(el, g), g) \o el
 TextRoom(g, c) == g.w - (Indent(c, g) + 1)
 
+(* The displayed part of a line that is wider than the room (printHighlighted).                                    *)
+(* DOCUMENTED (man fzf): --no-hscroll "Disable horizontal scroll": the line is cut on the right;                   *)
+(*   --hscroll-off=COLS "Number of screen columns to keep to the right of the highlighted substring (default: 10). *)
+(*   Setting it to a large value will cause the text to be positioned on the center of the screen";                 *)
+(*   --keep-right "Keep the right end of the line visible when it's too long.  Effective only when the query        *)
+(*   string is empty"; --ellipsis "Ellipsis to show when line is truncated".                                        *)
+(* CODE-DERIVED: the arithmetic.  me0 = index of the last matched cell (0 = none), nopat = no pattern in effect.    *)
+(*   el  = the ellipsis cut to half the room; lim = room - width(el)                                                *)
+(*   me  = me0 + min(room/2 - width(el), hscrollOff) cells, at most the length of the line                         *)
+(*   --keep-right and no pattern (also header lines): el, then the longest tail within lim                         *)
+(*   the head up to me fits in lim: the longest head within lim, then el                  ("Stri..")               *)
+(*   otherwise: what follows me is replaced by el when it is wider than el; of the result the longest tail within  *)
+(*   lim is shown after a leading el                                                       ("..ri.." / "..ring")    *)
+(*   so the leading ellipsis always has its room, whether or not a trailing one is shown.                           *)
+Window(t, me0, nopat, room, c, g) ==
+    IF room <= 0 THEN <<>>
+    ELSE IF TW(t, g) <= room THEN t
+    ELSE LET el == TakeW(c.ellipsis, room \div 2, g)
+             ew == TW(el, g)
+             lim == room - ew
+             me == Constrain(me0 + Min2(room \div 2 - ew, c.hscrollOff), 0, Len(t))
+         IN IF ~c.hscroll THEN TakeW(t, lim, g) \o el
+            ELSE IF c.keepRight /\ nopat THEN el \o TakeRightW(t, lim, g)
+            ELSE IF TW(Sub(t, 1, me), g) <= lim THEN TakeW(t, lim, g) \o el
+            ELSE LET cutR == TW(Sub(t, me + 1, Len(t)), g) > ew
+                     t2 == IF cutR THEN Sub(t, 1, me) \o el ELSE t
+                 IN el \o TakeRightW(t2, lim, g)
+
+(* The scrollbar (getScrollbar, printBar).  DOCUMENTED: a scrollbar is displayed unless --no-scrollbar; CODE-DERIVED: *)
+(* it occupies the reserved column of `len` consecutive list rows starting `start` rows from the first one, and     *)
+(* only when there are more results than list rows.                                                                  *)
+Bar(s, g, c) ==
+    LET total == N(s)
+        height == MaxItems(g, c)
+    IN IF total = 0 \/ height = 0 \/ total <= height THEN <<0, 0>>
+       ELSE LET len == Max2(1, (height * height) \div total)
+            IN <<len, Min2(height - len, ((height - len) * s.offset) \div (total - height))>>
+BarOn(k, s, g, c) == c.scrollbar # <<>> /\ k >= Bar(s, g, c)[2] /\ k < Bar(s, g, c)[2] + Bar(s, g, c)[1]
+
 Selected(id, s) == \E i \in 1..Len(s.sel) : s.sel[i] = id
 ItemRow(k, s, g, c) ==
     LET i == s.offset + k + 1 IN
     IF i > N(s) THEN <<>>
-    ELSE (IF s.offset + k = s.cy THEN c.pointer ELSE Spaces(PLen(c, g)))
-         \o (IF Selected(s.list[i], s) THEN c.marker ELSE Spaces(MLen(c, g)))
-         \o Fit(s.texts[i], TextRoom(g, c), c, g)
-HeaderRow(t, g, c) == Spaces(Indent(c, g)) \o Fit(t, TextRoom(g, c), c, g)
+    ELSE LET row == (IF s.offset + k = s.cy THEN c.pointer ELSE Spaces(PLen(c, g)))
+                    \o (IF Selected(s.list[i], s) THEN c.marker ELSE Spaces(MLen(c, g)))
+                    \o Window(s.texts[i], MatchEnd(s.texts[i], s.pattern), s.pattern = <<>>, TextRoom(g, c), c, g)
+         IN IF BarOn(k, s, g, c) THEN PadTo(row, g.w - 1, g) \o c.scrollbar ELSE row
+(* header lines are never matched: they are displayed like lines without a pattern *)
+HeaderRow(t, g, c) == Spaces(Indent(c, g)) \o Window(t, 0, TRUE, TextRoom(g, c), c, g)
 
 (* CODE-DERIVED: exact text of the finder info (printInfoImpl); DOCUMENTED: it shows matched/total and the        *)
 (* number of selected lines (with the limit when --multi has one) *)
@@ -161,7 +288,6 @@ SepFill(n, c) == IF c.sep THEN Rep("-", n) ELSE <<>>
 (* horizontally by s.xoffset characters; what precedes the cursor is cut on the left, what follows on the right.    *)
 PromptRoom(g, c) == Max2(1, g.w - TW(c.prompt, g) - 1)
 QueryFits(s, g, c) == TW(s.input, g) <= PromptRoom(g, c)
-TakeRightW(t, lim, g) == Rev(TakeW(Rev(t), lim, g))                     \* trimLeft: the longest suffix within lim columns
 QBefore(s, g, c) == TakeRightW(Sub(s.input, s.xoffset + 1, s.cx), PromptRoom(g, c), g)
 QAfter(s, g, c) == TakeW(Sub(s.input, s.cx + 1, Len(s.input)), PromptRoom(g, c) - TW(QBefore(s, g, c), g), g)
 QShown(s, g, c) == QBefore(s, g, c) \o QAfter(s, g, c)
@@ -210,11 +336,21 @@ SlotRow(sl, s, g, c) ==
       [] sl.kind = "item" -> ItemRow(sl.ix, s, g, c)
       [] OTHER -> <<>>
 
-Render(s, g, c) == [r \in 1..g.h |-> RTrim(SlotRow(SlotAt(r - 1, g, c), s, g, c))]
+(* the rows of the finder's area: g = the area (inside the border), c = the configuration in effect *)
+RenderArea(s, g, c) == [r \in 1..g.h |-> RTrim(SlotRow(SlotAt(r - 1, g, c), s, g, c))]
+(* --border: the area framed by a box (--no-unicode: + - |), rows padded to the width of the area *)
+FrameEdge(g) == <<"+">> \o Rep("-", g.w - 2) \o <<"+">>
+Frame(area, g) == [r \in 1..g.h |-> IF r = 1 \/ r = g.h THEN FrameEdge(g)
+                                    ELSE <<"|", " ">> \o PadTo(area[r - 1], g.w - 3, g) \o <<"|">>]
+(* THE SCREEN: g = the terminal, c = the configuration given on the command line, s = the current state *)
+Render(s, g, c) == IF c.border THEN Frame(RenderArea(s, Inner(g, c), Eff(s, c)), g)
+                   ELSE RenderArea(s, g, Eff(s, c))
 
 -------------------------------------------------------------------------------
 (* DOCUMENTED claims, stated on an observed screen `rows` (captured or rendered).  Pointer, marker and prompt    *)
-(* are narrow (one column per cell) in the comparable configuration.                                              *)
+(* are narrow (one column per cell) in the comparable configuration.  The Claim* operators below speak about the  *)
+(* finder's area (g = the area, c = the configuration in effect); Claims / FailedClaims at the end apply them to   *)
+(* a whole screen (border removed, visibility flags applied).                                                      *)
 RowsOf(kind, g, c) == {r \in 1..g.h : SlotAt(r - 1, g, c).kind = kind}
 
 ClaimHeight(rows, g) == Len(rows) = g.h
@@ -257,50 +393,111 @@ ClaimInfo(rows, s, g, c) ==
         \A r \in InfoRowIx(g, c) : Contains(rows[r], InfoShown(s)) /\ Contains(rows[r], SelShown(s))
 
 (* "each list row shows the corresponding result line - complete when it fits, otherwise truncated with the      *)
-(* ellipsis"; "the pointer on the current line and a marker on exactly the selected lines" *)
-ShowsLine(body, t, g, c) ==
-    \/ body = RTrim(t)
-    \/ /\ TW(t, g) > TextRoom(g, c)                                    \* does not fit beside the reserved column
-       /\ \E k \in 0..(Len(t) - 1) : body = RTrim(Sub(t, 1, k) \o c.ellipsis)
+(* ellipsis and never wider than the window"; "the pointer on the current line and a marker on exactly the       *)
+(* selected lines".  A line that does not fit beside the reserved column is shown as a contiguous part t[i..j]    *)
+(* with the ellipsis in front iff something was cut in front (only with horizontal scrolling) and the ellipsis    *)
+(* behind iff something was cut behind; the whole is at most `room` columns wide.                                 *)
+(*   must > 0: the cell t[must] (the last matched one) is part of what is shown, with `ctx` cells after it (or    *)
+(*   up to the end of the line);  tail: the end of the line is shown (--keep-right without a pattern)             *)
+ShowsLine(body, t, must, ctx, tail, room, c, g) ==
+    \/ TW(t, g) <= room /\ body = RTrim(t)
+    \/ /\ TW(t, g) > room                                              \* does not fit beside the reserved column
+       /\ TW(body, g) <= room
+       /\ \E i \in 1..(Len(t) + 1) :
+            LET lead == IF i > 1 THEN c.ellipsis ELSE <<>> IN
+            /\ (i > 1 => c.hscroll)
+            /\ (must > 0 => i <= must)
+            /\ IsPrefix(RTrim(lead), body)
+            /\ (i <= Len(t) /\ Len(body) > Len(lead) /\ lead = RTrim(lead) =>          \* (a cheap filter on i, implied by the next conjunct)
+                   body[Len(lead) + 1] = t[i] \/ (c.ellipsis # <<>> /\ body[Len(lead) + 1] = c.ellipsis[1]))
+            /\ \E j \in (i - 1)..Min2(Len(t), i + room + Cardinality({k \in 1..Len(t) : t[k] \in g.zero})) :
+                 LET shown == lead \o Sub(t, i, j) \o (IF j < Len(t) THEN c.ellipsis ELSE <<>>) IN
+                 /\ (i > 1 \/ j < Len(t))
+                 /\ body = RTrim(shown) /\ TW(shown, g) <= room
+                 /\ (must > 0 => j >= Min2(Len(t), must + ctx))
+                 /\ (tail => j = Len(t))
+(* what the documentation promises about the part shown of s.texts[i] *)
+Narrow(t, g) == \A j \in 1..Len(t) : CW(t[j], g) = 1
+MustShow(t, s, room, c, g) ==
+    IF c.hscroll /\ s.pattern # <<>> /\ Determined(t, s.pattern, g) /\ Narrow(t, g) /\ TW(c.ellipsis, g) < room \div 2
+    THEN MatchEnd(t, s.pattern) ELSE 0
+Context(room, c, g) == Min2(c.hscrollOff, room \div 2 - TW(c.ellipsis, g))
+KeepsTail(s, c) == c.hscroll /\ c.keepRight /\ s.pattern = <<>>
 ItemShown(row, k, s, g, c) ==
     LET i == s.offset + k + 1
         pl == Len(c.pointer)
         ml == Len(c.marker)
-        padded == row \o Spaces(pl + ml)                               \* blank pointer/marker columns may have been trimmed
-    IN /\ Sub(padded, 1, pl) = (IF s.offset + k = s.cy THEN c.pointer ELSE Spaces(pl))
+        main == TakeW(row, g.w - 1, g)                                 \* the columns left of the reserved one
+        rest == Sub(row, Len(main) + 1, Len(row))
+        padded == main \o Spaces(pl + ml)                              \* blank pointer/marker columns may have been trimmed
+        room == TextRoom(g, c)
+    IN /\ rest = (IF BarOn(k, s, g, c) THEN c.scrollbar ELSE <<>>)     \* the reserved column: scrollbar or nothing
+       /\ (rest # <<>> => TW(main, g) = g.w - 1)
+       /\ Sub(padded, 1, pl) = (IF s.offset + k = s.cy THEN c.pointer ELSE Spaces(pl))
        /\ Sub(padded, pl + 1, pl + ml) = (IF Selected(s.list[i], s) THEN c.marker ELSE Spaces(ml))
-       /\ ShowsLine(RTrim(Sub(padded, pl + ml + 1, Len(padded))), s.texts[i], g, c)
+       /\ ShowsLine(RTrim(Sub(padded, pl + ml + 1, Len(padded))), s.texts[i], MustShow(s.texts[i], s, room, c, g),
+                    Context(room, c, g), KeepsTail(s, c), room, c, g)
 ClaimList(rows, s, g, c) ==
     \A r \in RowsOf("item", g, c) :
         LET k == SlotAt(r - 1, g, c).ix IN
         IF s.offset + k < N(s) THEN ItemShown(rows[r], k, s, g, c) ELSE rows[r] = <<>>
+(* the scrollbar: none when every result has a row; otherwise at least one row has it, and the rows that have it  *)
+(* are consecutive (implied by ItemShown through BarOn; stated on its own for the design check)                   *)
+BarRows(rows, g, c) == {r \in RowsOf("item", g, c) : TW(rows[r], g) = g.w /\ Sub(rows[r], Len(rows[r]) - Len(c.scrollbar) + 1, Len(rows[r])) = c.scrollbar}
+ClaimBar(rows, s, g, c) ==
+    IF c.scrollbar = <<>> THEN TRUE
+    ELSE IF N(s) <= MaxItems(g, c) \/ MaxItems(g, c) = 0 THEN BarRows(rows, g, c) = {}
+    ELSE /\ BarRows(rows, g, c) # {}
+         /\ \A r1, r2 \in BarRows(rows, g, c) : \A r \in r1..r2 : r \in BarRows(rows, g, c)
 
 (* "Header lines appear where the layout puts them and are never part of the list" *)
 HeaderShown(row, t, g, c) ==
     LET ind == Indent(c, g)
         padded == row \o Spaces(ind)
-    IN Sub(padded, 1, ind) = Spaces(ind) /\ ShowsLine(RTrim(Sub(padded, ind + 1, Len(padded))), t, g, c)
+    IN Sub(padded, 1, ind) = Spaces(ind)
+       /\ ShowsLine(RTrim(Sub(padded, ind + 1, Len(padded))), t, 0, 0, c.hscroll /\ c.keepRight, TextRoom(g, c), c, g)
 ClaimHeader(rows, g, c) ==
     /\ \A r \in RowsOf("header", g, c) : HeaderShown(rows[r], HdrStack(c)[SlotAt(r - 1, g, c).ix], g, c)
     /\ \A r \in RowsOf("hline", g, c) : HeaderShown(rows[r], c.hlines[SlotAt(r - 1, g, c).ix], g, c)
 ClaimBlank(rows, g, c) == \A r \in RowsOf("blank", g, c) : rows[r] = <<>>
 
-Claims(rows, s, g, c) ==
+ClaimsArea(rows, s, g, c) ==
     /\ ClaimHeight(rows, g)
     /\ ClaimWidth(rows, g)
     /\ ClaimPrompt(rows, s, g, c)
     /\ ClaimInfo(rows, s, g, c)
     /\ ClaimList(rows, s, g, c)
+    /\ ClaimBar(rows, s, g, c)
     /\ ClaimHeader(rows, g, c)
     /\ ClaimBlank(rows, g, c)
-FailedClaims(rows, s, g, c) ==
+FailedClaimsArea(rows, s, g, c) ==
     IF ~ClaimHeight(rows, g) THEN "height"
     ELSE (IF ClaimWidth(rows, g) THEN "" ELSE "width ")
          \o (IF ClaimPrompt(rows, s, g, c) THEN "" ELSE "prompt ")
          \o (IF ClaimInfo(rows, s, g, c) THEN "" ELSE "info ")
          \o (IF ClaimList(rows, s, g, c) THEN "" ELSE "list ")
+         \o (IF ClaimBar(rows, s, g, c) THEN "" ELSE "scrollbar ")
          \o (IF ClaimHeader(rows, g, c) THEN "" ELSE "header ")
          \o (IF ClaimBlank(rows, g, c) THEN "" ELSE "blank ")
+
+(* "--border: draw border around the finder": the first and the last row are the edges of the box, every row in  *)
+(* between starts with the left edge and ends with the right edge in the last column; nothing is drawn over them  *)
+ClaimFrame(rows, g) ==
+    /\ Len(rows) = g.h /\ g.h >= 2 /\ g.w >= 4
+    /\ rows[1] = FrameEdge(g) /\ rows[g.h] = FrameEdge(g)
+    /\ \A r \in 2..(g.h - 1) :
+          /\ TW(rows[r], g) = g.w
+          /\ Sub(rows[r], 1, 2) = <<"|", " ">>
+          /\ rows[r][Len(rows[r])] = "|"
+Unframe(rows, g) == [r \in 1..(g.h - 2) |-> RTrim(Sub(rows[r + 1], 3, Len(rows[r + 1]) - 1))]
+
+(* the claims about a whole screen: g = the terminal, c = the command-line configuration *)
+Claims(rows, s, g, c) ==
+    IF c.border THEN ClaimFrame(rows, g) /\ ClaimsArea(Unframe(rows, g), s, Inner(g, c), Eff(s, c))
+    ELSE ClaimsArea(rows, s, g, Eff(s, c))
+FailedClaims(rows, s, g, c) ==
+    IF c.border THEN (IF ClaimFrame(rows, g) THEN FailedClaimsArea(Unframe(rows, g), s, Inner(g, c), Eff(s, c)) ELSE "border")
+    ELSE FailedClaimsArea(rows, s, g, Eff(s, c))
 
 -------------------------------------------------------------------------------
 (* NAMED DEVIATION (finding "info-tail-not-cleared", src/terminal.go printInfoImpl).  With a separator configured  *)
@@ -310,14 +507,101 @@ FailedClaims(rows, s, g, c) ==
 (* separator dash, or the last character of a longer info text: "10/10 (9))").  The screen then is the exact       *)
 (* rendition plus one stale cell at the end of the info text.  Not part of Render; the judge names it.             *)
 InfoFill(s, g, c) == InfoRoom(QShown(s, g, c), s, g, c) - Len(InfoText(s)) - 1
-DevInfoTail(rows, s, g, c) ==
+DevInfoTail(rows, s, g, c0) ==
+    LET c == Eff(s, c0) IN
+    /\ ~c.border
     /\ c.sep /\ ~c.inputless /\ c.info \in {"default", "inline"}
     /\ InfoFill(s, g, c) = 0
     /\ Len(rows) = g.h
-    /\ LET R == Render(s, g, c) IN
+    /\ LET R == Render(s, g, c0) IN
        \E r \in InfoRowIx(g, c) :
           /\ \A i \in 1..g.h : i # r => rows[i] = R[i]
           /\ Len(rows[r]) = Len(R[r]) + 1 /\ IsPrefix(R[r], rows[r])
+
+-------------------------------------------------------------------------------
+(* NAMED DEVIATION (finding "header-lines-window-not-hidden", src/terminal.go resizeIfNeeded).  With               *)
+(* --layout=reverse-list the --header-lines rows live in a window of their own above the list.  Whether that       *)
+(* window has to be rebuilt is decided by comparing its height with the NUMBER OF HEADER LINES, not with the        *)
+(* number of VISIBLE header lines: without a --header (whose window does notice), hide-header / toggle-header      *)
+(* change nothing - the rows stay, the list keeps its size - until something else rebuilds the windows (a resize).  *)
+(* The screen then is the exact rendition of the same state with the header section shown.                          *)
+(* Not part of Render; the judge names it.                                                                           *)
+DevHeaderLinesStayApplies(s, c) == c.layout = "reverse-list" /\ Len(c.hlines) > 0 /\ c.header = <<>> /\ ~s.showHeader
+DevHeaderLinesStayState(s) == [s EXCEPT !.showHeader = TRUE]
+
+(* NAMED DEVIATION (finding "header-lines-reversed-after-show-input", src/terminal.go resizeIfNeeded / move).       *)
+(* With --layout=reverse-list and --header-lines the prompt has a window of its own - but only as long as the        *)
+(* windows are built while the input section is shown.  hide-input rebuilds them without it; show-input (or          *)
+(* toggle-input) does NOT rebuild them (resizeIfNeeded only asks whether --input-border is set), so from then on     *)
+(* the prompt and the info line are drawn inside the list window, until something else rebuilds the windows          *)
+(* (a resize).  Two things follow:                                                                                    *)
+(*   - `move` takes "the input lines are in this window" as the sign to count rows from the bottom, also in the       *)
+(*     header-lines window: the --header-lines appear in REVERSE order;                                               *)
+(*   - the window of the --header lines, built without an input window below it, is the bottom-most: the header       *)
+(*     lines appear BELOW the prompt instead of between the list and the info line.                                   *)
+(* Everything else is in place.  Not part of Render; the judge names it.  vis: the show / hide / toggle actions of    *)
+(* the session so far.  g, c in DevInputWindowLostArea: the finder's area and the configuration in effect.            *)
+DevHeaderLinesReversedApplies(s, c, vis) ==
+    /\ c.layout = "reverse-list" /\ Len(c.hlines) >= 1
+    /\ \/ \E i \in 1..Len(vis) : vis[i] \in {"hide-input", "toggle-input"}  \* (it stays so when the input is hidden again)
+       \/ c.inputless /\ vis # <<>>                                          \* started with --no-input: show-input is enough
+DevInputWindowLostArea(s, g, c, swap) ==
+    LET A == RenderArea(s, g, c)
+        n == HlTop(g, c)
+        pl == PromptLines(c)
+        H == Len(HdrStack(c))                                   \* the --header lines below the list
+        lo == g.h - pl - H                                      \* below row lo: the header lines, then the input section
+        A1 == [i \in 1..g.h |-> IF i <= n THEN A[n + 1 - i] ELSE A[i]]
+    IN IF swap /\ pl > 0 /\ H > 0 /\ lo >= n
+       THEN [i \in 1..g.h |-> IF i <= lo THEN A1[i] ELSE IF i <= lo + pl THEN A1[i + H] ELSE A1[i - pl]]
+       ELSE A1
+DevInputWindowLostScreen(s, g, c0, swap) ==
+    LET area == DevInputWindowLostArea(s, Inner(g, c0), Eff(s, c0), swap)
+    IN IF c0.border THEN Frame(area, g) ELSE area
+
+(* NAMED DEVIATION (finding "rows-not-cleared-after-header-toggle-reverse-list", src/terminal.go printList /        *)
+(* printItem / move).  Which rows need repainting is remembered per LINE of the list window (prevLines), and with    *)
+(* --layout=reverse-list the screen row of a list line depends on the number of header lines below the list (move:   *)
+(* y -= header lines + input lines).  toggle-header / hide-header / show-header change that number without           *)
+(* invalidating the memory (toggle-input does invalidate it): every list row moves, rows "known to be empty" are     *)
+(* not cleared, rows "known to be n columns wide" are blanked up to n only.  What the header (or a longer list row)  *)
+(* had written stays visible to the right of the new content, or on rows that should now be empty.  Applies when     *)
+(* the --header lines live in the list window (no --header-lines: those get windows of their own, and the windows   *)
+(* are rebuilt).  The screen then is the exact rendition, except that list / header / empty rows of the area may     *)
+(* carry extra cells after their content.  Not part of Render; the judge names it.                                    *)
+DevStaleRowsApplies(c, vis) ==
+    /\ c.layout = "reverse-list" /\ Len(c.hlines) = 0 /\ Len(c.header) > 0
+    /\ \E i \in 1..Len(vis) : vis[i] \in {"toggle-header", "hide-header", "show-header"}
+DevStaleRows(rows, s, g, c, open) ==            \* open: screen rows whose exact content the specification leaves open
+    LET gi == Inner(g, c)
+        ce == Eff(s, c)
+        area == IF c.border THEN Unframe(rows, g) ELSE rows
+        RA == RenderArea(s, gi, ce)
+    IN /\ Len(rows) = g.h /\ (c.border => ClaimFrame(rows, g))
+       /\ \A i \in 1..gi.h :
+            \/ area[i] = RA[i] \/ (i + (IF c.border THEN 1 ELSE 0)) \in open
+            \/ /\ SlotAt(i - 1, gi, ce).kind \in {"item", "blank", "header"}
+               \* the content is there; after it - and in the scrollbar column - anything may have stayed (or be missing)
+               /\ IsPrefix(RTrim(TakeW(RA[i], gi.w - 1, gi)), area[i]) /\ TW(area[i], gi) <= gi.w
+
+(* NAMED DEVIATION (finding "keep-right-lost-after-exclude", src/terminal.go printHighlighted).  --keep-right is     *)
+(* "effective only when the query string is empty" (man fzf).  The code asks instead whether the matcher reported    *)
+(* positions (`pos == nil`), i.e. whether the displayed list came from an unfiltered pass.  After `exclude` the list  *)
+(* is filtered by a pattern that has no terms but a deny list: the query is still empty, positions are reported (none),*)
+(* and too long lines are cut on the right again.  The screen then is the exact rendition without --keep-right.       *)
+(* filtered: the displayed list came from a filtering pass (term.list: not `pass`).  Not part of Render.              *)
+DevKeepRightLostApplies(s, c, filtered) == c.hscroll /\ c.keepRight /\ s.pattern = <<>> /\ filtered
+DevKeepRightLostCfg(c) == [c EXCEPT !.keepRight = FALSE]
+
+(* NAMED DEVIATION (finding "missing-header-lines-not-cleared", src/terminal.go printHeaderImpl).  --header-lines=N   *)
+(* reserves N rows even when the input has fewer records (CODE-DERIVED, see c.hlines); the rows of the missing        *)
+(* records are never drawn - nor cleared.  When the layout shifts without a full redraw (hide-input, toggle-header, *)
+(* ...) they keep whatever the rows showed before.  The screen then is the exact rendition except on those rows.       *)
+(* missing: the number of reserved rows without a record (the last `missing` of c.hlines).                             *)
+MissingHeaderRows(g, c, missing) ==
+    {r \in 1..g.h : LET sl == SlotAt(r - 1, g, c) IN
+        \/ sl.kind = "hline" /\ sl.ix > Len(c.hlines) - missing
+        \/ sl.kind = "header" /\ ~Split(c) /\ sl.ix > Len(c.header) + Len(c.hlines) - missing}
 
 -------------------------------------------------------------------------------
 (* Properties of the placement (checked by MC_Screen on all small geometries and configurations) *)
